@@ -376,12 +376,22 @@ def expireLoop (s : State) (keys hids : List Nat) (cutoff : Nat) (acc : List Nat
         else expireLoop s ks hids cutoff acc
       | _, _, _ => expireLoop s ks hids cutoff acc
 
-/-- `lock_entries_unlocked_for_at_least(d)` -/
-def expire (s : State) (d : Nat) (hids : List Nat) : State × Out :=
+/-- the cut-off of `lock_entries_unlocked_for_at_least(d)`: `now.checked_sub(d)`, computed from a clock read that happens
+*before* the global lock is taken (the clock is an argument of the scan) -/
+def cutoffOf (s : State) (d : Nat) : Option Nat := if d > s.now then none else some (s.now - d)
+
+/-- [G] the scan of `lock_entries_unlocked_for_at_least` with the cut-off computed earlier (`none`: the duration reaches back
+before the clock's origin, nothing is that old) -/
+def expireAt (s : State) (cutoff : Option Nat) (hids : List Nat) : State × Out :=
   if s.wedged then (s, .poisoned) else
-  if d > s.now then (s, .list []) else
-  let r := expireLoop s s.order hids (s.now - d) []
-  (r.1, .list r.2)
+  match cutoff with
+  | none => (s, .list [])
+  | some c =>
+    let r := expireLoop s s.order hids c []
+    (r.1, .list r.2)
+
+/-- `lock_entries_unlocked_for_at_least(d)` with nothing happening between its clock read and its scan (a single caller) -/
+def expire (s : State) (d : Nat) (hids : List Nat) : State × Out := expireAt s (cutoffOf s d) hids
 
 def count (s : State) : State × Out :=
   if s.wedged then (s, .poisoned) else (s, .nat s.order.length)
@@ -429,7 +439,7 @@ inductive Act where
   | enqueue (h : Nat) | enqueueLate (h : Nat) | acquire (h : Nat)
   | cancel (h : Nat) | cleanupFailed (h : Nat)
   | gop (h : Nat) (op : GOp) | stamp (h : Nat) | release (h : Nat)
-  | snapshot (hids : List Nat) | expire (d : Nat) (hids : List Nat)
+  | snapshot (hids : List Nat) | expire (cutoff : Option Nat) (hids : List Nat)
   | count | keys | intoEntries | tick (d : Nat) | reorder (perm : List Nat)
 deriving Repr
 
@@ -454,8 +464,8 @@ def step (s : State) (a : Act) : State × Out :=
   | .release h => release s h
   | .snapshot hids =>
     if s.freshList hids && decide (s.order.length ≤ hids.length) then snapshot s hids else (s, .bad)
-  | .expire d hids =>
-    if s.freshList hids && decide (s.order.length ≤ hids.length) then expire s d hids else (s, .bad)
+  | .expire cutoff hids =>
+    if s.freshList hids && decide (s.order.length ≤ hids.length) then expireAt s cutoff hids else (s, .bad)
   | .count => count s
   | .keys => keys s
   | .intoEntries => intoEntries s
